@@ -455,8 +455,11 @@ fn make_twin(parent: &RCase, _doc: &Doc, label: &str, bytes: Vec<u8>) -> Result<
     let mut lim = Limits::for_input(bytes.len());
     lim.debug = false;
     // the layout matters below the record APIs: two sequential scripts, two query scripts, read-query-read
+    // thorough tier (twins run at bound 2 there): one sequential and the query scripts only
+    let thorough = std::env::args().any(|a| a == "thorough") || std::env::var("VERIF_TIER").as_deref() == Ok("thorough") || std::env::var_os("C16_THOROUGH_SETS").is_some();
     let keep = |s: &Script| match s {
-        Script::Seq(a) => *a <= 1,
+        Script::Seq(a) => *a == 0 || (*a == 1 && !thorough),
+        Script::Mixed(_) if thorough => false,
         Script::Query(l, _) => matches!(*l, "three-regions" | "unknown-and-empty-references" | "empty-references" | "unknown-reference"),
         Script::Unmapped => f == Format::Cram,
         Script::Mixed(_) => true,
